@@ -502,6 +502,8 @@ def cipher_ob_generic(prog, res, fi):
         modes_ = [e.data['callee'].split('.')[-1] for e in p.evs('ext-call') if '.modes.' in e.data['callee']]
         meths = [e.data['name'] for e in p.evs('method') if e.data['name'] in ('encryptor', 'decryptor')]
         fails = []
+        if p.outcome == 'raise' and not algs and not modes_ and not meths:
+            return []          # refused before any cipher is set up: whether it may refuse is C14.e's question, not this one's
         if algs != ['TripleDES']:
             fails.append(definite(f'cipher algorithm is {algs}, expected TripleDES'))
         if modes_ != ['ECB']:
